@@ -79,7 +79,7 @@ def run(F, R, tier):
             continue
 
         def is_push(n):
-            return n.get("k") == "MethodCall" and n["name"] in ("push_back", "push") and peel(n["recv"]).get("field") == "pending"
+            return n.get("k") == "MethodCall" and n["name"] in ("push_back", "push") and field_of(n["recv"]) == "pending"
 
         # either the push dominates the construction, or every path after the construction passes the push
         fl = Flow(F, is_target=is_push, probe=lambda n: n is c)
@@ -160,7 +160,7 @@ def run(F, R, tier):
                 err_lid = bs[0]["lid"] if bs else None
 
                 def is_store(n):
-                    if not (n.get("k") == "MethodCall" and n["name"] == "insert" and peel(n["recv"]).get("field") == "module_slots"):
+                    if not (n.get("k") == "MethodCall" and n["name"] == "insert" and field_of(n["recv"]) == "module_slots"):
                         return False
                     v = peel(n["args"][1])
                     return ctor_of(v) == "graph::ModuleSlot::Err" and peel_value(v["args"][0]).get("lid") == err_lid
@@ -201,14 +201,14 @@ def run(F, R, tier):
             spec = binds.get("specifier")
 
             def writes_slot(n):
-                if n.get("k") == "MethodCall" and n["name"] == "insert" and peel(n["recv"]).get("field") == "module_slots":
+                if n.get("k") == "MethodCall" and n["name"] == "insert" and field_of(n["recv"]) == "module_slots":
                     return peel_value(n["args"][0]).get("lid") == spec
                 if n.get("k") == "Assign":
                     # *entry = ModuleSlot::..  where entry = module_slots.get_mut(&specifier)
                     l = peel(n["l"])
                     if l.get("res") == "local":
                         for d in local_defs(vis, l["lid"]):
-                            if d[1] is not None and any(x.get("name") == "get_mut" and peel(x["recv"]).get("field") == "module_slots" for x in walk(d[1]) if x.get("k") == "MethodCall"):
+                            if d[1] is not None and any(x.get("name") == "get_mut" and field_of(x["recv"]) == "module_slots" for x in walk(d[1]) if x.get("k") == "MethodCall"):
                                 return True
                 return False
 
@@ -234,7 +234,7 @@ def run(F, R, tier):
                         ok = any(x.kind == "cond" and x.pol and (x.node.get("fn") or "").endswith("ModuleSlot::is_pending") for x in g)
                         why = "`*entry = External` is not guarded by entry.is_pending()"
                     else:
-                        ok = any(x.kind == "pat" and not x.pol and pat_text(x.pat).startswith("std::option::Option::Some(") and any(y.get("name") in ("get_mut", "get") and peel(y["recv"]).get("field") == "module_slots" for y in walk(x.scrut) if y.get("k") == "MethodCall") for x in g)
+                        ok = any(x.kind == "pat" and not x.pol and pat_text(x.pat).startswith("std::option::Option::Some(") and any(y.get("name") in ("get_mut", "get") and field_of(y["recv"]) == "module_slots" for y in walk(x.scrut) if y.get("k") == "MethodCall") for x in g)
                         why = "module_slots.insert of the External marker is not confined to the case where the specifier has no slot yet"
                     R.ob("C03-c", "visit/External never overwrites a settled entry", ok,
                          why + ": a loader answering External{other specifier} would replace an already loaded module by an external marker", where(w),
@@ -265,7 +265,7 @@ def run(F, R, tier):
         if not binds or not any(tyc(F, b_, "graph::PendingNpmResolutionItem") for b_ in binds):
             continue
         n_loops += 1
-        settle = lambda n: (n.get("k") == "MethodCall" and n["name"] == "insert" and peel(n["recv"]).get("field") == "module_slots") or callee_matches(n, ["NpmSpecifierResolver::add_req_ref_for_item"])
+        settle = lambda n: (n.get("k") == "MethodCall" and n["name"] == "insert" and field_of(n["recv"]) == "module_slots") or callee_matches(n, ["NpmSpecifierResolver::add_req_ref_for_item"])
         bad, _ = must_pass(F, lp["body"], settle, exit_kinds=("fallthrough", "continue", "break", "return"))
         R.ob("C03-c", "every pending npm specifier is settled (module stub or error entry) on every path", not bad,
              "a path through an npm resolution loop leaves the item without a module slot: the specifier would be missing from the graph without an error", where(lp))
@@ -295,7 +295,7 @@ def run(F, R, tier):
         item = pat_bindings(lp[0]["cond"]["pat"])[0]
         n_w = 0
         for n in walk(lp[0]["body"]):
-            if n.get("k") == "MethodCall" and n["name"] in ("insert", "get_mut") and peel(n["recv"]).get("field") == "module_slots":
+            if n.get("k") == "MethodCall" and n["name"] in ("insert", "get_mut") and field_of(n["recv"]) == "module_slots":
                 n_w += 1
                 key = peel_value(n["args"][0])
                 ok = key.get("k") == "Field" and key["field"] == "specifier" and peel(key["e"]).get("lid") == item["lid"]
@@ -310,7 +310,7 @@ def run(F, R, tier):
         R.floor("C03-c slot writes in the content-load drain", n_w, 5)
     fg = F.body("graph::NpmSpecifierResolver::fill_graph")
     keep = [n for n in fg["_nodes"] if n.get("k") == "MethodCall" and n["name"] in ("or_insert", "or_insert_with")]
-    R.ob("C03-c", "npm results never overwrite an entry the graph already has", len(keep) == 2 and not [n for n in fg["_nodes"] if n.get("k") == "MethodCall" and n["name"] == "insert" and peel(n["recv"]).get("field") in ("module_slots", "redirects")],
+    R.ob("C03-c", "npm results never overwrite an entry the graph already has", len(keep) == 2 and not [n for n in fg["_nodes"] if n.get("k") == "MethodCall" and n["name"] == "insert" and field_of(n["recv"]) in ("module_slots", "redirects")],
          "fill_graph writes module_slots / redirects other than through entry().or_insert()", fg["file"])
 
     # ---------------- C03-d / C03-e ----------------------------------------
